@@ -25,7 +25,9 @@ type sym struct {
 
 func scoped(name string) bool {
 	return strings.HasPrefix(name, "github.com/bilibili/smgo/") || strings.HasPrefix(name, "crypto/subtle.") ||
-		strings.HasPrefix(name, "math/bits.") || strings.HasPrefix(name, "main.")
+		strings.HasPrefix(name, "math/bits.") || strings.HasPrefix(name, "main.") ||
+		// variable-time library routines a change might apply to a secret (early-exit comparisons, searches)
+		strings.HasPrefix(name, "bytes.") || strings.HasPrefix(name, "internal/bytealg.")
 }
 
 func init() {
